@@ -54,6 +54,8 @@ def c01(tier):
     run.add_jobs(jobs_for(F.curated(), {"pause": 1, "resume_early": True, "max_nodes": sizes(tier, 1500, 6000)}, s))
     run.add_jobs(jobs_for(F.curated() + F.curated_delay() + F.curated_items()[:6],
                           {"delayed": "all", "max_nodes": sizes(tier, 1500, 6000)}, s, tok="visit"))
+    # the loop that forks a multiply-referenced task on every pass: every overlap of its instances
+    run.add_jobs(jobs_for([d for d in F.curated() if d["name"] == "loop_fork_overlap"], {"max_nodes": sizes(tier, 5000, 12000)}, s))
     return run.finish("model_checking",
                       "every (definition, outcome assignment, report order) explored by DFS on the real conductor; "
                       "non-trivial = tree with more than 4 steps; distinct by definition+environment",
@@ -99,6 +101,10 @@ def c03(tier):
     run.add_jobs(jobs_for(e2, {"pause": 1, "cancel": 1, "sample": sizes(tier, 3, 5), "max_nodes": sizes(tier, 1200, 6000)}, s))
     run.add_jobs(jobs_for(F.curated()[:12] + F.curated_items() + F.curated_retry()[:6],
                           {"rerun": 1, "rerun_tasks": True, "max_nodes": sizes(tier, 1200, 6000)}, s))
+    # inquiries: actions whose first report is `pending` (also on the second visit of a loop)
+    inq = F.with_e2([d for d in F.curated() + F.curated_ctx() if d["name"] in ("seq", "fork", "diamond", "loop2", "loop3", "join_partial")],
+                    fates=("s", "f", "p"))
+    run.add_jobs(jobs_for(inq, {"delayed": "pending", "pause": 1, "max_nodes": sizes(tier, 1500, 6000)}, s))
     return run.finish("model_checking",
                       "every quiescent point (query answered empty, nothing in flight) of the explored trees",
                       ASSUME_COMMON)
